@@ -163,6 +163,11 @@ func (e *Endpoint) TearDown() {
 	e.cancel()
 }
 
+// Ops returns how many SendMsg / RecvMsg calls this endpoint has seen.
+func (e *Endpoint) Ops() (sends, recvs int) {
+	return int(atomic.LoadInt32(&e.sendN)), int(atomic.LoadInt32(&e.recvN))
+}
+
 // Cancel cancels the stream context of this endpoint (as gRPC does when the
 // call's context is cancelled): blocked operations return ctx.Err().
 func (e *Endpoint) Cancel() { e.cancel() }
